@@ -25,11 +25,13 @@ def gen_radii(rng, n):
     return rs
 
 
-def gen_cluster(rng, n=None, periodic=None, tree=None, line=False, big=False, fast=False):
+def gen_cluster(rng, n=None, periodic=None, tree=None, line=False, big=False, fast=False, weird=False):
     """A cluster/chain of n spheres with many simultaneous overlaps; optional periodic box with images.
     big: many spheres whose radii exceed the tree cells they sit in (stresses the tree-walk pruning radius)."""
     if n is None:
         n = rng.choice([2, 3, 3, 4, 5, 6, 7, 8, 10, 12]) if not big else rng.choice([6, 8, 10, 12, 16])
+        if not big and not fast and rng.random() < 0.08:
+            n = rng.choice([0, 1, 1, 2])          # the smallest particle numbers
     if periodic is None:
         periodic = rng.random() < 0.4
     box = rng.choice([8.0, 10.0, 12.5, 16.0]) if not big else 8.0
@@ -63,7 +65,7 @@ def gen_cluster(rng, n=None, periodic=None, tree=None, line=False, big=False, fa
     for i in range(n):
         u = rng.random()
         ms.append(0.0 if u < 0.1 else (10 ** rng.uniform(-8, -2) if u < 0.35 else rng.uniform(0.1, 3)))
-    if all(m == 0.0 for m in ms):
+    if ms and all(m == 0.0 for m in ms):
         ms[0] = 1.0
     cfg = dict(N=n, periodic=periodic, box=box, x=[p[0] for p in P], y=[p[1] for p in P], z=[p[2] for p in P],
                vx=[v[0] for v in V], vy=[v[1] for v in V], vz=[v[2] for v in V], m=ms, r=rs,
@@ -71,6 +73,8 @@ def gen_cluster(rng, n=None, periodic=None, tree=None, line=False, big=False, fa
                t=rng.choice([1.0, 0.5, 3.25]), dt=rng.choice([0.01, 0.1, 0.5, -0.1]) if line else 0.01)
     if cfg["tree"]:
         cfg["mode"] = "linetree" if line else "tree"
+    if not fast and not big and rng.random() < 0.3:
+        corners(rng, cfg, weird)
     if fast and line:
         # small fast spheres moving mainly along z: paths cross during the step although the end positions are far apart,
         # so LINETREE must rely on its drift terms (|dt||v1| and maxdrift) to reach the partner's cell
@@ -88,6 +92,64 @@ def gen_cluster(rng, n=None, periodic=None, tree=None, line=False, big=False, fa
     return cfg
 
 
+EXTREME = [-0.0, 5e-324, -1e-310, 2.2250738585072014e-308, 1e300, -1e300, float("inf"), float("-inf"), float("nan")]
+
+
+def corners(rng, cfg, weird):
+    """degenerate corners of the quantified space, a few per configuration (general, not aimed at anything):
+    coincident positions, exact touching at dyadic distances, -0.0, dt = 0, t = 0, ghost-box counts 0..3 per axis,
+    and (weird = binary64-only corners, never given to the exact-rational oracle) subnormal / huge / infinite / NaN values"""
+    n = cfg["N"]
+    for _ in range(rng.randint(1, 3)):
+        k = rng.choice(["coincident", "touch", "negzero", "dt0", "t0", "nghost", "equal_all", "weird" if weird else "negzero"])
+        if k == "coincident" and n >= 2 and not cfg["tree"]:
+            i, j = rng.sample(range(n), 2)
+            for c in ("x", "y", "z"):
+                cfg[c][j] = cfg[c][i]
+            if rng.random() < 0.5:
+                for c in ("vx", "vy", "vz"):
+                    cfg[c][j] = cfg[c][i]
+        elif k == "touch" and n >= 2:
+            i, j = rng.sample(range(n), 2)
+            cfg["r"][i], cfg["r"][j] = rng.choice([(0.5, 0.25), (0.25, 0.25), (1.0, 0.0)] + ([] if cfg["tree"] else [(0.0, 0.0)]))
+            cfg["x"][j] = cfg["x"][i] = rng.choice([0.0, 1.0, -2.0])
+            cfg["y"][j] = cfg["y"][i] = 0.5
+            cfg["z"][j] = cfg["z"][i] = -0.25
+            cfg["x"][j] = cfg["x"][i] + (cfg["r"][i] + cfg["r"][j]) * rng.choice([1, -1])     # exactly touching (dyadic, exact)
+            cfg["vx"][i], cfg["vx"][j] = rng.choice([(0.0, 0.0), (1.0, -1.0), (-1.0, 1.0)])
+        elif k == "negzero" and n >= 1:
+            i = rng.randrange(n)
+            cfg[rng.choice(["x", "y", "z", "vx", "vy", "vz"])][i] = -0.0
+            if rng.random() < 0.5:
+                cfg["r"][i] = 0.0
+        elif k == "dt0":
+            cfg["dt"] = rng.choice([0.0, -0.0, 5e-324, -1e-3])
+        elif k == "t0":
+            cfg["t"] = rng.choice([0.0, -0.0, -1.0, 1e300])
+        elif k == "nghost":
+            cfg["nghost3"] = tuple(rng.choice([0, 1, 1, 2, 3]) for _ in range(3))
+        elif k == "equal_all" and n >= 2:
+            r0 = rng.choice([0.0, 0.3])
+            cfg["r"] = [r0] * n
+            cfg["m"] = [rng.choice([0.0, 1.0])] * n if rng.random() < 0.5 else cfg["m"]
+        elif k == "weird" and n >= 1 and not cfg["tree"]:
+            i = rng.randrange(n)
+            f = rng.choice(["x", "y", "z", "vx", "vy", "vz", "r", "m", "dt"])
+            if f == "dt":
+                cfg["dt"] = rng.choice(EXTREME)
+            elif f in ("r", "m"):
+                cfg[f][i] = rng.choice([0.0, 5e-324, 1e300, 1e-300, float("inf"), float("nan")])
+            else:
+                cfg[f][i] = rng.choice(EXTREME)
+            cfg["weird"] = True
+    if cfg["tree"]:      # the tree refuses a second particle at the same coordinates (an error, tested by C15): keep them distinct
+        seen = set()
+        for i in range(n):
+            while (cfg["x"][i], cfg["y"][i], cfg["z"][i]) in seen:
+                cfg["y"][i] += 0.0078125
+            seen.add((cfg["x"][i], cfg["y"][i], cfg["z"][i]))
+
+
 def make_sim(rebound, cfg):
     sim = rebound.Simulation()
     sim.integrator = "none"
@@ -97,15 +159,21 @@ def make_sim(rebound, cfg):
         sim.configure_box(cfg["box"], 1, 1, 1)
     if cfg["periodic"]:
         sim.boundary = "periodic"
-        sim.N_ghost_x = sim.N_ghost_y = sim.N_ghost_z = cfg.get("nghost", 1)
+        sim.N_ghost_x, sim.N_ghost_y, sim.N_ghost_z = cfg.get("nghost3", (cfg.get("nghost", 1),) * 3)
     else:
         sim.boundary = "none" if not cfg["tree"] else "open"
     sim.collision_resolve_keep_sorted = cfg["keep"]
     sim.t = cfg["t"]
     sim.dt = cfg["dt"]
+    fin = (lambda v: 0.0) if cfg.get("weird") else (lambda v: v)      # placeholders; the real values are written below
     for i in range(cfg["N"]):
-        sim.add(m=cfg["m"][i], x=cfg["x"][i], y=cfg["y"][i], z=cfg["z"][i], vx=cfg["vx"][i], vy=cfg["vy"][i],
-                vz=cfg["vz"][i], r=cfg["r"][i], hash=1000 + i)
+        sim.add(m=fin(cfg["m"][i]), x=fin(cfg["x"][i]), y=fin(cfg["y"][i]), z=fin(cfg["z"][i]), vx=fin(cfg["vx"][i]),
+                vy=fin(cfg["vy"][i]), vz=fin(cfg["vz"][i]), r=fin(cfg["r"][i]), hash=1000 + i)
+    if cfg.get("weird"):       # Python's Particle() rejects NaN: write the fields of the C array directly
+        for i in range(cfg["N"]):
+            q = sim.particles[i]
+            for k_ in ("m", "x", "y", "z", "vx", "vy", "vz", "r"):
+                setattr(q, k_, cfg[k_][i])
     sim.dt_last_done = cfg["dt"]
     sim.rand_seed = cfg["seed"]
     sim.N_active = cfg.get("nact", -1)
@@ -170,6 +238,10 @@ def hashes(sim):
     return [sim.particles[i].hash.value for i in range(sim.N)]
 
 
+def ccbrt(x):
+    return math.cbrt(x) if x == x else float("nan")
+
+
 def run_merge(rebound, cfg):
     """run with the library's merge resolver wrapped in a recording callback; the wrapper also applies libm cbrt to
     the argument r_i^3 + r_j^3 (computed in binary64 in the model's operation order) for the model's oracle input"""
@@ -178,6 +250,7 @@ def run_merge(rebound, cfg):
     f.argtypes = [ctypes.POINTER(rebound.Simulation), rebound.simulation.CollisionS]
     f.restype = ctypes.c_int
     sim = make_sim(rebound, cfg)
+    mr_before = (sim.max_radius[0], sim.max_radius[1])
     log, cbs = [], []
     def cb(sp, c):
         s = sp.contents
@@ -186,11 +259,20 @@ def run_merge(rebound, cfg):
         h1, h2 = s.particles[c.p1].hash.value, s.particles[c.p2].hash.value
         o = f(sp, c)
         if o != 0:
-            cbs.append(math.cbrt(ri * ri * ri + rj * rj * rj))
+            cbs.append(ccbrt(ri * ri * ri + rj * rj * rj))
         log.append((c.p1, c.p2, gbid(gb_int(s, c)), h1, h2, o))
         return o
     search(rebound, sim, cb)
+    sim._c13_mr_before = mr_before
     return log, cbs, sim
+
+
+def csin(x):
+    return math.sin(x) if math.isfinite(x) else float("nan")      # C: sin(+-inf) = NaN (Python raises)
+
+
+def ccos(x):
+    return math.cos(x) if math.isfinite(x) else float("nan")
 
 
 def run_hardsphere(rebound, cfg, eps=None, mcv=0.0):
@@ -210,10 +292,10 @@ def run_hardsphere(rebound, cfg, eps=None, mcv=0.0):
         z21 = p1.z + c.gb.z - p2.z
         x21 = p1.x + c.gb.x - p2.x
         th = math.atan2(z21, y21)
-        st, ct = math.sin(th), math.cos(th)
+        st, ct = csin(th), ccos(th)
         y21n = ct * y21 + st * z21
         ph = math.atan2(y21n, x21)
-        orcs.append((st, ct, math.sin(ph), math.cos(ph)))
+        orcs.append((st, ct, csin(ph), ccos(ph)))
         h1, h2 = p1.hash.value, p2.hash.value
         o = f(sp, c)
         log.append((c.p1, c.p2, gbid(gb_int(s, c)), h1, h2, o))
@@ -278,9 +360,8 @@ def F(x):
 def images(cfg):
     if not cfg["periodic"]:
         return [(0, 0, 0)]
-    n = min(cfg.get("nghost", 1), 1)
-    R = range(-n, n + 1)
-    return [(a, b, c) for a in R for b in R for c in R]
+    n3 = [min(v, 1) for v in cfg.get("nghost3", (cfg.get("nghost", 1),) * 3)]
+    return [(a, b, c) for a in range(-n3[0], n3[0] + 1) for b in range(-n3[1], n3[1] + 1) for c in range(-n3[2], n3[2] + 1)]
 
 
 def rel(cfg, i, j, g):
